@@ -20,7 +20,7 @@ from saml2_tophat.s_utils import decode_base64_and_inflate
 
 CLIENT = F.mk_client()
 # every character html.escape / percent-encoding / the SOAP splice treat specially + representatives
-ALPH = ["", "a", "&", "<", ">", '"', "'", "=", "%", "+", " ", "\n", "#", "?", ";", "/", "é", " ", "\U0001F600", "]]>"]
+ALPH = ["", "a", "&", "<", ">", '"', "'", "=", "%", "+", " ", "\n", "#", "?", ";", "/", "é", " ", "\U0001F600", "]]>", "\\"]
 HOSTILE = ["&Signature=x", "a=b&SAMLRequest=evil", "%26RelayState%3Dz", "\"/><input name=\"x\" value=\"", "&amp;lt;", "</form>", "x" * 80]
 NA = len(ALPH)
 MSGS = [
@@ -135,7 +135,7 @@ def redirect(i: int, j: int, k: int, h: int, m: int, dq: int, response: bool, si
 
 DECLS = ["", "<?xml version='1.0' encoding='UTF-8'?>", '<?xml version="1.0" encoding="UTF-8"?>', "<?XML version='1.0'?>"]
 SEPS = ["", "\n", " ", "\r\n", "\n\n", "\t"]
-TXT = ["", "a", "\n", " x ", "l1\nl2", "&amp;", "&lt;b&gt;", "é", "'\"", "]]&gt;", "t\r\nu"]
+TXT = ["", "a", "\n", " x ", "l1\nl2", "&amp;", "&lt;b&gt;", "é", "'\"", "]]&gt;", "t\r\nu", "CORP\\user1", "EXAMPLE\\north", "a\\\\b", "\\g<0>"]
 SAMLP = "urn:oasis:names:tc:SAML:2.0:protocol"
 
 
@@ -203,7 +203,7 @@ CONDITIONS = [
          functions=["pack.make_soap_enveloped_saml_thingy (string input)", "entity.Entity.apply_binding (SOAP)", "soap.parse_soap_enveloped_saml_thingy",
                     "entity.Entity.unravel (SOAP)"],
          bounds="message = optional XML declaration (4 spellings) + separator from {none, LF, space, CRLF, LFLF, TAB} + a Response element whose child text and mixed text "
-                "come from an 11-entry catalogue (empty, line breaks, escapes, non-ASCII, quotes) + optional trailing newline; via pack and via Entity.apply_binding"),
+                "come from a 15-entry catalogue (empty, line breaks, escapes, non-ASCII, quotes, backslash sequences) + optional trailing newline; via pack and via Entity.apply_binding"),
 ]
 
 ASSUMPTIONS = [
